@@ -8,6 +8,8 @@
 //   harness nested <T> <iters>   scheduled closure schedules a same-type closure and waits inside the tasking system
 //   harness wakeup <T> <ms>      one schedule() at a time, timed to the worker's spin-to-sleep transition; each must run within 2 s
 //   harness arena <reps>         (TBB) first schedule() of a functor type from inside a small task_arena, later ones from main
+//   harness ownerthief <T> <get|drop|pf> <ms>  owner pops its own pipe while a worker steals the only item
+//   harness steal <T> <iters>    a closure run by a worker schedules another and spins: a second worker must steal it
 //   harness onethread            tasking system initialised with 1 thread, one schedule(), no waiting
 #include <algorithm>
 #include <atomic>
@@ -627,12 +629,120 @@ static int mode_arena(int reps)
   _exit(0);
 }
 
+// ------------------------------------------------ pipe owner and thief race for the ONLY queued item
+// The thread that queued a task pops its own pipe (get() / wait() / destructor / a nested parallel_for) in the same few
+// instructions in which a worker steals that item.  Variants: get (AsyncTask<int> construct + immediate get()),
+// drop (construct + immediate destruction), pf (schedule() of one closure, then parallel_for(1) on the caller).
+// Every body must run exactly once; a watchdog thread turns a hang into a verdict.
+static int mode_ownerthief(int T, const std::string &variant, int budget_ms)
+{
+  initTaskingSystem(T);
+  const long CAP = 4000000;
+  std::vector<std::atomic<int>> *cnt = new std::vector<std::atomic<int>>(CAP);
+  for (auto &c : *cnt) c = 0;
+  std::atomic<long> *progress = new std::atomic<long>(0);
+  std::atomic<int> *finished_flag = new std::atomic<int>(0);
+  auto tstart = clk::now();
+  // watchdog: no progress for 3 s => hang
+  std::thread([=]() {
+    long last = -1;
+    auto tl = clk::now();
+    for (;;) {
+      sleep_ms(50);
+      if (finished_flag->load()) return;
+      long p = progress->load();
+      if (p != last) { last = p; tl = clk::now(); }
+      else if (ms_since(tl) > 3000) {
+        long twice = 0, zero = 0;
+        for (long i = 0; i < p; ++i) { int c = (*cnt)[i].load(); twice += c > 1; zero += c == 0; }
+        printf("OWNERTHIEF T=%d variant=%s iters=%ld twice=%ld zero=%ld wrong_value=0 hang=1 hung_at_iteration=%ld\n", T, variant.c_str(), p, twice,
+            zero, p);
+        fflush(stdout);
+        _exit(0);
+      }
+    }
+  }).detach();
+  long i = 0, wrong = 0;
+  std::vector<std::atomic<int>> &C = *cnt;
+  while (i < CAP && ms_since(tstart) < budget_ms) {
+    for (int k = 0; k < 64 && i < CAP; ++k, ++i) {
+      std::atomic<int> *slot = &C[i];
+      if (variant == "get") {
+        AsyncTask<int> at([slot, i]() { (*slot)++; return (int)(i & 0x7fffffff); });
+        if (at.get() != (int)(i & 0x7fffffff)) wrong++;
+      } else if (variant == "drop") {
+        AsyncTask<int> at([slot]() { (*slot)++; return 1; });
+      } else {
+        schedule([slot]() { (*slot)++; });
+        std::atomic<int> pf{0};
+        parallel_for(1, [&](int) { pf++; });
+        if (pf.load() != 1) wrong++;
+      }
+      progress->store(i + 1);
+    }
+  }
+  // late executions / duplicates
+  auto t0 = clk::now();
+  for (;;) {
+    long pending = 0;
+    for (long j = (i > 2000 ? i - 2000 : 0); j < i; ++j) pending += C[j].load() == 0;
+    if (!pending || ms_since(t0) > 2000) break;
+    sleep_ms(2);
+  }
+  sleep_ms(30);
+  finished_flag->store(1);
+  long twice = 0, zero = 0, first_bad = -1;
+  for (long j = 0; j < i; ++j) {
+    int c = C[j].load();
+    twice += c > 1; zero += c == 0;
+    if (c != 1 && first_bad < 0) first_bad = j;
+  }
+  printf("OWNERTHIEF T=%d variant=%s iters=%ld twice=%ld zero=%ld wrong_value=%ld hang=0 first_bad_iteration=%ld\n", T, variant.c_str(), i, twice, zero,
+      wrong, first_bad);
+  fflush(stdout);
+  _exit(0);
+}
+
+// ------------------------------------------------ a task queued by a busy WORKER must be stolen by another worker
+// Closure A (run by some worker X) schedules closure B — which lands in X's own pipe — and then spins (no tasking call)
+// until B has run.  Only another worker can run B: it has to look into X's pipe.  B must run within 2 s.
+static int mode_steal(int T, int iters)
+{
+  initTaskingSystem(T);
+  std::atomic<int> *a_done = new std::atomic<int>(0), *b_ran = new std::atomic<int>(0), *late = new std::atomic<int>(0);
+  int completed = 0;
+  for (int i = 0; i < iters; ++i) {
+    int b0 = b_ran->load();
+    schedule([=]() {
+      schedule([=]() { (*b_ran)++; });
+      auto t0 = clk::now();
+      while (b_ran->load() == b0 && ms_since(t0) < 2000)
+        std::this_thread::yield();
+      if (b_ran->load() == b0) (*late)++;
+      (*a_done)++;
+    });
+    auto t0 = clk::now();
+    while (a_done->load() <= i && ms_since(t0) < 4000)
+      sleep_ms(1);
+    if (a_done->load() <= i) break;
+    completed = i + 1;
+    if (late->load()) break;
+    sleep_ms(1);
+  }
+  sleep_ms(30);
+  printf("STEAL T=%d iters=%d completed=%d inner_not_run_within_2s=%d inner_ran=%d\n", T, iters, completed, late->load(), b_ran->load());
+  fflush(stdout);
+  _exit(0);
+}
+
 int main(int argc, char **argv)
 {
   if (argc < 2) return 2;
   std::string m = argv[1];
   int n = argc > 2 ? atoi(argv[2]) : 1;
   if (m == "onethread") return mode_onethread();
+  if (m == "steal") return mode_steal(n, argc > 3 ? atoi(argv[3]) : 30);
+  if (m == "ownerthief") return mode_ownerthief(n, argc > 3 ? argv[3] : "get", argc > 4 ? atoi(argv[4]) : 500);
   if (m == "wakeup") return mode_wakeup(n, argc > 3 ? atoi(argv[3]) : 3000);
   if (m == "nested") return mode_nested(n, argc > 3 ? atoi(argv[3]) : 8);
   if (m == "parkburst") return mode_parkburst(n, argc > 3 ? atoi(argv[3]) : 300);
